@@ -75,18 +75,9 @@ func ruleR20d(c *Ctx) {
 		found++
 		key := "data." + kind + ".Truthy"
 		c.seen(key)
-		// (d) a single return expression over the receiver
-		if len(fd.Body.List) != 1 {
-			c.bad("R20d", key+"#pure", fd.Pos(), "Truthy has more than a single return: truthiness may depend on something other than the value")
-			continue
-		}
-		ret, ok := fd.Body.List[0].(*ast.ReturnStmt)
-		if !ok || len(ret.Results) != 1 {
-			c.bad("R20d", key+"#pure", fd.Pos(), "Truthy is not a single return expression")
-			continue
-		}
+		// (d) the method computes from its receiver only: no package variable is read anywhere in it
 		pure := true
-		ast.Inspect(ret.Results[0], func(x ast.Node) bool {
+		ast.Inspect(fd.Body, func(x ast.Node) bool {
 			if id, ok := x.(*ast.Ident); ok {
 				if v, ok := info.Uses[id].(*types.Var); ok && v.Pkg() != nil && v.Parent() == v.Pkg().Scope() {
 					pure = false // reads a package variable
@@ -94,22 +85,34 @@ func ruleR20d(c *Ctx) {
 			}
 			return true
 		})
-		c.check(pure, "R20d", key+"#pure", fd.Pos(), "a single expression over the receiver", "Truthy reads package state")
+		c.check(pure, "R20d", key+"#pure", fd.Pos(), "computed from the receiver alone", "Truthy reads package state")
 		var recvObj types.Object
 		if len(fd.Recv.List[0].Names) == 1 {
 			recvObj = info.Defs[fd.Recv.List[0].Names[0]]
 		}
-		ev := newEvaluator(c, noHypo{})
+		ev := newEvaluator(c, truthyHypo{})
+		// the body is evaluated (K2) with the receiver bound to the sample; every returning path must agree
 		evalWith := func(v aval) (aval, bool) {
 			st := state{env: env{}}
 			if recvObj != nil {
 				st.env[recvObj] = v
 			}
-			rs := ev.evalExpr(ret.Results[0], st, info)
-			if len(rs) != 1 {
+			var got *aval
+			for _, cp := range ev.execBlock(fd.Body.List, st, info) {
+				if cp.kind != cReturn || len(cp.vals) != 1 {
+					continue
+				}
+				r := cp.vals[0]
+				if got == nil {
+					got = &r
+				} else if got.k != r.k || (got.k == avConst && !constant.Compare(got.c, token.EQL, r.c)) {
+					return unknown, false
+				}
+			}
+			if got == nil {
 				return unknown, false
 			}
-			return rs[0].v, true
+			return *got, true
 		}
 		if want, ok := fixed[kind]; ok {
 			got, _ := evalWith(unknown)
@@ -131,8 +134,24 @@ func ruleR20d(c *Ctx) {
 		}
 		if kind == "Float" {
 			// NaN is falsy: the expression must reject NaN through math.IsNaN under a negation
-			src := exprKey(ret.Results[0])
-			c.check(strings.Contains(src, "!math.IsNaN("), "R20d", key+"#table NaN", fd.Pos(), "NaN is excluded with !math.IsNaN", "Float.Truthy does not exclude NaN (no !math.IsNaN test): NaN is truthy")
+			// ... either as a conjunct `!math.IsNaN(v)` of the returned expression or as a guard that returns false
+			excl := false
+			ast.Inspect(fd.Body, func(x ast.Node) bool {
+				switch e := x.(type) {
+				case *ast.UnaryExpr:
+					if e.Op == token.NOT && strings.HasPrefix(exprKey(e.X), "math.IsNaN(") {
+						excl = true
+					}
+				case *ast.IfStmt:
+					if strings.HasPrefix(exprKey(e.Cond), "math.IsNaN(") && len(e.Body.List) == 1 {
+						if r, ok := e.Body.List[0].(*ast.ReturnStmt); ok && len(r.Results) == 1 && exprKey(r.Results[0]) == "false" {
+							excl = true
+						}
+					}
+				}
+				return true
+			})
+			c.check(excl, "R20d", key+"#table NaN", fd.Pos(), "NaN is excluded with math.IsNaN", "Float.Truthy does not exclude NaN (no math.IsNaN test that makes it false): NaN is truthy")
 		}
 	}
 	c.floor("R20d", "Truthy methods", 8, found)
@@ -243,7 +262,13 @@ func ruleR20c(c *Ctx) {
 		}
 		return true
 	})
+	// kinds dispatched through a table (map[reflect.Kind]func ...) that NewWith indexes with the value's kind
+	tableKinds := converterTableArms(c)
 	for _, k := range need {
+		if have[k] == nil && tableKinds[k] != nil {
+			c.ok("R20c", "data.NewWith kind "+k, tableKinds[k].Pos(), "converted by an entry of the kind table the converter consults")
+			continue
+		}
 		c.check(have[k] != nil, "R20c", "data.NewWith kind "+k, fd.Pos(), "converted by a case of the kind switch", "values of reflect kind "+k+" fall to the default arm and make the conversion panic")
 	}
 	if kindSwitch == nil {
@@ -314,15 +339,46 @@ func ruleR20f(c *Ctx) {
 		return
 	}
 	info := p.TypesInfo
-	n := 0
+	isFloatTyped := func(e ast.Expr) bool {
+		tv, ok := info.Types[e]
+		if !ok {
+			return false
+		}
+		b, ok := tv.Type.Underlying().(*types.Basic)
+		return ok && b.Info()&types.IsFloat != 0
+	}
+	// truncates: a conversion to an integer type applied to a float-typed operand somewhere inside e
+	truncates := func(e ast.Expr) bool {
+		found := false
+		ast.Inspect(e, func(x ast.Node) bool {
+			call, ok := x.(*ast.CallExpr)
+			if !ok || len(call.Args) != 1 {
+				return true
+			}
+			if t, ok := info.Types[call.Fun]; ok && t.IsType() {
+				if b, ok := t.Type.Underlying().(*types.Basic); ok && b.Info()&types.IsInteger != 0 && isFloatTyped(call.Args[0]) {
+					found = true
+				}
+			}
+			return true
+		})
+		return found
+	}
+	type arm struct {
+		cc        *ast.CaseClause
+		floatCmp  bool
+		delegates bool
+	}
+	arms := map[string]*arm{}
 	for _, fd := range c.allFuncDecls("data") {
-		if fd.Name.Name != "Equals" || fd.Recv == nil {
+		if fd.Name.Name != "Equals" || fd.Recv == nil || len(fd.Recv.List[0].Names) == 0 {
 			continue
 		}
 		kind := recvTypeName(fd.Recv.List[0].Type)
 		if kind != "Int" && kind != "Float" {
 			continue
 		}
+		recv := info.Defs[fd.Recv.List[0].Names[0]]
 		other := map[string]string{"Int": "Float", "Float": "Int"}[kind]
 		ast.Inspect(fd.Body, func(x ast.Node) bool {
 			cc, ok := x.(*ast.CaseClause)
@@ -336,37 +392,50 @@ func ruleR20f(c *Ctx) {
 			if _, tn, ok := relPkgOfType(tv.Type); !ok || tn != other {
 				return true
 			}
-			n++
-			key := "data." + kind + ".Equals cross-kind " + other
-			good := false
+			a := &arm{cc: cc}
+			arms[kind] = a
 			for _, s := range cc.Body {
 				r, ok := s.(*ast.ReturnStmt)
 				if !ok || len(r.Results) != 1 {
 					continue
 				}
-				be, ok := ast.Unparen(r.Results[0]).(*ast.BinaryExpr)
-				if !ok || be.Op != token.EQL {
-					continue
-				}
-				isF64 := func(e ast.Expr) bool {
-					call, ok := ast.Unparen(e).(*ast.CallExpr)
-					if !ok || len(call.Args) != 1 {
-						return false
+				switch e := ast.Unparen(r.Results[0]).(type) {
+				case *ast.BinaryExpr:
+					// compared as floating-point numbers: both operands float-typed, nothing truncated on the way
+					if e.Op == token.EQL && isFloatTyped(e.X) && isFloatTyped(e.Y) && !truncates(e.X) && !truncates(e.Y) {
+						a.floatCmp = true
 					}
-					t, ok := info.Types[call.Fun]
-					if !ok || !t.IsType() {
-						return false
+				case *ast.CallExpr:
+					// handed to the other kind's Equals with the receiver as argument: o.Equals(v)
+					if se, ok := ast.Unparen(e.Fun).(*ast.SelectorExpr); ok && se.Sel.Name == "Equals" && len(e.Args) == 1 {
+						if aid, ok := ast.Unparen(e.Args[0]).(*ast.Ident); ok && info.Uses[aid] == recv {
+							if rtv, ok := info.Types[se.X]; ok {
+								if _, tn, ok := relPkgOfType(rtv.Type); ok && tn == other {
+									a.delegates = true
+								}
+							}
+						}
 					}
-					b, ok := t.Type.(*types.Basic)
-					return ok && b.Kind() == types.Float64
-				}
-				if isF64(be.X) && isF64(be.Y) {
-					good = true
 				}
 			}
-			c.check(good, "R20f", key, cc.Pos(), "both operands are converted to float64 before comparing", "the "+other+" arm of "+kind+".Equals does not compare both values as float64: a fractional value can equal the integer it truncates to, in one direction only")
 			return true
 		})
+	}
+	n := 0
+	for _, kind := range []string{"Float", "Int"} {
+		a := arms[kind]
+		if a == nil {
+			continue
+		}
+		n++
+		other := map[string]string{"Int": "Float", "Float": "Int"}[kind]
+		key := "data." + kind + ".Equals cross-kind " + other
+		good := a.floatCmp || (a.delegates && arms[other] != nil && arms[other].floatCmp)
+		detail := "both operands are compared as floating-point numbers"
+		if !a.floatCmp && good {
+			detail = "handed to " + other + ".Equals, which compares both operands as floating-point numbers"
+		}
+		c.check(good, "R20f", key, a.cc.Pos(), detail, "the "+other+" arm of "+kind+".Equals does not compare both values as floating-point numbers: a fractional value can equal the integer it truncates to, in one direction only")
 	}
 	c.floor("R20f", "cross-kind arms of numeric Equals", 2, n)
 }
@@ -496,3 +565,78 @@ func ruleR20h(c *Ctx) {
 	c.floor("R20h", "functions of package data examined", 25, nf)
 	c.floor("R20h", "ranges over maps classified", 1, nl)
 }
+
+// converterTableArms: when data.NewWith (or a helper) indexes a package-level map keyed by reflect.Kind whose
+// values are functions, the entries are arms of the converter: kind name -> body of the entry's function.
+func converterTableArms(c *Ctx) map[string]ast.Node {
+	p := c.pkg("data")
+	fd := c.mustFunc("data", "NewWith")
+	out := map[string]ast.Node{}
+	if p == nil || fd == nil {
+		return out
+	}
+	info := p.TypesInfo
+	byFunc := map[types.Object]*ast.FuncDecl{}
+	for _, d := range c.allFuncDecls("data") {
+		byFunc[info.Defs[d.Name]] = d
+	}
+	for _, hd := range c.withHelpers("data", fd, 2) {
+		ast.Inspect(hd.Body, func(x ast.Node) bool {
+			ix, ok := x.(*ast.IndexExpr)
+			if !ok {
+				return true
+			}
+			id, ok := ast.Unparen(ix.X).(*ast.Ident)
+			if !ok {
+				return true
+			}
+			v, ok := info.Uses[id].(*types.Var)
+			if !ok || v.Pkg() == nil || v.Parent() != v.Pkg().Scope() {
+				return true
+			}
+			mt, ok := v.Type().Underlying().(*types.Map)
+			if !ok {
+				return true
+			}
+			if _, isFunc := mt.Elem().Underlying().(*types.Signature); !isFunc {
+				return true
+			}
+			init, _ := ast.Unparen(c.pkgVarInit("data", v.Name())).(*ast.CompositeLit)
+			if init == nil {
+				return true
+			}
+			for _, el := range init.Elts {
+				kv, ok := el.(*ast.KeyValueExpr)
+				if !ok {
+					continue
+				}
+				k := constObj(info, kv.Key)
+				if k == nil || k.Pkg() == nil || k.Pkg().Path() != "reflect" {
+					continue
+				}
+				switch val := ast.Unparen(kv.Value).(type) {
+				case *ast.Ident:
+					if d := byFunc[info.Uses[val]]; d != nil {
+						out[k.Name()] = d.Body
+					}
+				case *ast.FuncLit:
+					out[k.Name()] = val.Body
+				}
+			}
+			return true
+		})
+	}
+	return out
+}
+
+// truthyHypo: samples are ordinary numbers, so math.IsNaN of one is false.
+type truthyHypo struct{}
+
+func (truthyHypo) expr(ev *evaluator, e ast.Expr, info *types.Info) (aval, bool) { return unknown, false }
+func (truthyHypo) prim(ev *evaluator, fn *types.Func, call *ast.CallExpr, st state) (aval, bool) {
+	if fn != nil && fn.Pkg() != nil && fn.Pkg().Path() == "math" && fn.Name() == "IsNaN" {
+		return boolVal(false), true
+	}
+	return unknown, false
+}
+func (truthyHypo) isRead(fn *types.Func) bool { return false }
